@@ -178,7 +178,7 @@ def oracle_wellformed(cfg, ops, steps):
             vs = vals_of(o)
             if len(vs) != ln:
                 out.append(Finding(st.n, '%s: len()=%d but iteration yields %d elements' % (reg, ln, len(vs))))
-            gets = o['gets'].split(',')
+            gets = [('' if g == '.' else g) for g in o['gets'].split(',')]
             want = vs + ['none', 'none']
             if gets != want:
                 out.append(Finding(st.n, '%s: get(i) disagrees with iteration / is Some beyond len' % reg))
@@ -214,8 +214,8 @@ def oracle_memo(cfg, ops, steps):
                 continue
             t = parse_tree(s['tree'])
             m = st.M.get(reg, '-')
-            memos = [] if m == '-' else m.split(',')
             nodes = [(p, x) for p, x in preorder(t) if x[0] != 'Z']
+            memos = m.split(',') if (m != '-' or len(nodes) == 1) else []
             if len(memos) != len(nodes):
                 out.append(Finding(st.n, '%s: memo view has %d entries for %d nodes' % (reg, len(memos), len(nodes))))
                 continue
